@@ -41,9 +41,15 @@ def run(tier, seed):
             if t:
                 tags[t] = tags.get(t, 0) + 1
     cov["generation"].append({"config": "catalogue scripts", "behaviours": len(behs), "renderings": total, "mismatches": nbad, "spec_dev_tags": tags})
-    for m in ("bigquery", "snowflake"):
-        sub = [b for b in behs if len(b["hist"]) <= 2]
-        n2, nu2, _ = F.compare(V, sub, seeds[:1], "catalogue/" + m, run={"output_mode": m}) if False else (0, 0, 0)
+    # every other output mode gets a slice of the scripts of <=2 declarations (bigquery: a non-empty schema is reported as `dataset`)
+    from .. import clauses as KM
+    others = [m for m in KM.MODES if m != "sql"]
+    sub = [b for b in behs if len(b["hist"]) <= 2]
+    for mi, m in enumerate(others):
+        part = sub if m == "bigquery" else sub[mi::len(others)]
+        n2, nu2, _ = F.compare(V, part, seeds[:1], "catalogue/" + m, run={"output_mode": m})
+        total += n2
+        uniq += nu2
     b = behs[len(behs) // 2]
     text, exp = E.render(b["hist"], seeds[0])
     rc = V.finish()
